@@ -1140,6 +1140,12 @@ class LoadTranslator:
             a = self.coerce(self.eval(node.elts[0], env), "str", node)
             b = self.coerce(self.eval(node.elts[1], env), snd, node)
             return M("(%s, %s)" % (a, b), expect)
+        if isinstance(node, ast.BoolOp) and isinstance(node.op, ast.Or) and len(node.values) == 2 \
+                and isinstance(node.values[1], ast.Constant) and node.values[1].value == "":
+            v = self.eval(node.values[0], env)          # `x or ""` : None and "" both give ""
+            if isinstance(v, M) and v.ty == "ostr":
+                return M("(or_empty %s)" % v.expr, "str")
+            fail(node, '`or ""` on a %s' % getattr(v, "ty", v))
         if isinstance(node, (ast.ListComp, ast.DictComp)):
             return self.comprehension(node, env, expect)
         if isinstance(node, ast.IfExp):
